@@ -391,6 +391,7 @@ fn judgement_outcome(out: &crate::unif::Outcome) -> String {
         }
         Outcome::Panic(p) => format!("panic {}", panic_site(p)),
         Outcome::OverBudget => "non-terminating".into(),
+        Outcome::Skipped => "skipped".into(),
         Outcome::Error(e) => format!("error {}", &e[..e.len().min(40)]),
     }
 }
